@@ -180,6 +180,7 @@ func init() {
 			{Name: "expiry-in-sibling-collection", Timeout: 120 * time.Second, Count: func(t string) int { return tierN(t, 4, 40) }, Run: siblingExpiryBatch},
 			nonInterferencePart("views-queries-noninterference", 200, 3000),
 			{Name: "stale-handle-after-drop", Timeout: 60 * time.Second, Count: func(t string) int { return tierN(t, 120, 2400) }, Run: staleHandleScenario},
+			{Name: "failed-view-query-on-a-sibling", Timeout: 150 * time.Second, Count: func(t string) int { return tierN(t, 6, 40) }, Run: failedViewQueryScenario},
 		},
 		Floor: cellsFloor(300),
 	})
